@@ -34,7 +34,13 @@ def form? : String → Option Form
 def pre1? (t : String) : Option Pre :=
   match t.splitOn ":" with
   | ["c", f, o] => do let f ← form? f; let o ← int? o; pure (.doneCall f o)
-  | ["e", o] => do let o ← int? o; pure (.directEval o 1)
+  | ["e", o] => do let o ← int? o; pure (.directEval o 1 [] .normal)
+  -- x:<off>:<file>:<inner call sites joined by `.` | ->:<n|t>
+  | ["x", o, k, inner, ex] => do
+    let o ← int? o; let k ← k.toNat?
+    let inner ← if inner = "-" then some [] else (inner.splitOn ".").mapM int?
+    let ex ← if ex = "n" then some Exit.normal else if ex = "t" then some Exit.throw else none
+    pure (.directEval o k inner ex)
   | _ => none
 
 def pres? (t : String) : Option (List Pre) :=
